@@ -448,6 +448,15 @@ func (m *Monitors) c02(o *Op, res string, f *stepFacts, pre *Pre, s *Snap, bal m
 			if now.Cmp(e) != 0 && pre.snap.Owners[p] != string(a.addr(o.Owner)) {
 				m.fail("C02", "withdraw by %d took the earnings of %d, owned by someone else", o.Owner, a.atomOfAddr([]byte(p)))
 				m.fail("C13", "withdraw by %d reset the earnings of %d, owned by someone else", o.Owner, a.atomOfAddr([]byte(p)))
+				m.fail("C18", "the earned-fee scan of a withdrawal by %d (provider %d) touched the record of provider %d, which is not its subject", o.Owner, o.Prov, a.atomOfAddr([]byte(p)))
+			} else if now.Cmp(e) != 0 && o.Prov != 0 && p != string(a.addr(o.Prov)) && !m.k5 && !(m.rel != nil && m.rel.k3any) {
+				m.fail("C13", "withdraw by %d for provider %d changed the earnings of provider %d", o.Owner, o.Prov, a.atomOfAddr([]byte(p)))
+				m.fail("C18", "the earned-fee scan of provider %d touched the record of provider %d, which is not its subject", o.Prov, a.atomOfAddr([]byte(p)))
+			}
+			// an owner-wide withdrawal visits exactly the providers of the owner: none of them keeps earnings
+			if o.Prov == 0 && pre.snap.Owners[p] == string(a.addr(o.Owner)) && now.Sign() != 0 && !m.k5 && !(m.rel != nil && m.rel.k3any) {
+				m.fail("C13", "owner-wide withdrawal by %d left provider %d with earnings %s", o.Owner, a.atomOfAddr([]byte(p)), now)
+				m.fail("C18", "the owner-to-providers scan of owner %d did not return its provider %d", o.Owner, a.atomOfAddr([]byte(p)))
 			}
 		}
 		if feeColl.Cmp(pre.fee) != 0 {
